@@ -66,6 +66,8 @@ func c18(w *core.World, r *core.Report) {
 	ruleUnitFromProjection(w, r)
 	r.Rule("R18.11", "keys that one target node resolved are used: an error is reported only when no node answered", 1)
 	ruleResolvedKeysWin(w, r)
+	r.Rule("R18.12", "a refusal is published before the unit channel is closed: the sender that sees the closed channel ends cleanly, so the parser's error must already be the replay's result", 1)
+	ruleRefusalPublishedBeforeClose(w, r)
 	r.Rule("R18.10", "the relaxed slot mode (forced slot 0, cross-slot accepted) is selected by 'the target is not a cluster' and nothing narrower", 1)
 	ruleSlotModeByTargetKind(w, r)
 	r.Rule("R18.4", "cluster client re-validation before MULTI is sent", 4)
@@ -980,4 +982,114 @@ func passesOn(g *ssa.Function, target string, depth int) bool {
 		}
 	}
 	return n > 0
+}
+
+// ---------------------------------------------------------------- R18.12 the refusal is the replay's result before the unit channel is closed
+
+// ruleRefusalPublishedBeforeClose: "stops the replay with an error". The parser
+// refuses a unit by returning an error; the senders end cleanly (nil) when they
+// find the unit channel closed, and the replay's result is whatever is handed
+// to the wait-closer first. A parser that closes the channel before its error
+// has been handed over (a plain `defer close(unitBuf)`, the caller publishing
+// the error after the return) loses the race now and then: the refusal ends
+// the replay as a clean stop (W27). In parseAofReplayUnits every close of the
+// unit channel must, on the paths where the function's error result is not
+// nil, come after WaitCloser.Close(<that error>).
+func ruleRefusalPublishedBeforeClose(w *core.World, r *core.Report) {
+	f := fn(w, r, "(*syncer.RedisOutput).parseAofReplayUnits")
+	if f == nil {
+		return
+	}
+	isUnitChan := func(t types.Type) bool {
+		ch, ok := t.Underlying().(*types.Chan)
+		return ok && strings.HasSuffix(core.TypeName(ch.Elem()), "bisyncReplayUnit")
+	}
+	isErrCell := func(v ssa.Value) bool {
+		// the named error result seen from a deferred closure (a captured variable), or from the parser itself
+		ld, ok := core.Unwrap(v).(*ssa.UnOp)
+		if !ok || ld.Op != token.MUL {
+			return false
+		}
+		pt, ok := ld.X.Type().Underlying().(*types.Pointer)
+		if !ok || !types.Identical(pt.Elem(), types.Universe.Lookup("error").Type()) {
+			return false
+		}
+		switch ld.X.(type) {
+		case *ssa.FreeVar, *ssa.Alloc:
+			return true
+		}
+		return false
+	}
+	n := 0
+	for _, g := range core.DeepFuncs(f) {
+		for _, in := range core.OwnInstrs(g) {
+			var args []ssa.Value
+			var val ssa.Value
+			deferred := false
+			switch x := in.(type) {
+			case *ssa.Call:
+				val, args = x.Call.Value, x.Call.Args
+			case *ssa.Defer:
+				val, args, deferred = x.Call.Value, x.Call.Args, true
+			default:
+				continue
+			}
+			b, ok := val.(*ssa.Builtin)
+			if !ok || b.Name() != "close" || len(args) != 1 || !isUnitChan(args[0].Type()) {
+				continue
+			}
+			n++
+			if deferred {
+				r.Fail("parseAofReplayUnits/refusal-published-before-close", in.Pos(), "the unit channel is closed by a plain deferred close: it runs when the parser returns, before anybody has handed the parser's error to the wait-closer; a sender that sees the closed channel ends with nil first, and the refused unit stops the replay without an error")
+				continue
+			}
+			bad := ""
+			paths := 0
+			okEnum := core.EnumPathsN(g.Blocks[0], 0, 100000, 1, func(p *core.Path) {
+				at := -1
+				for i, pi := range p.Instrs {
+					if pi == in {
+						at = i
+					}
+				}
+				if at < 0 || bad != "" {
+					return
+				}
+				paths++
+				failed, decided := false, false
+				for _, fct := range p.Conds {
+					c, isCmp := core.FactCmp(fct)
+					if !isCmp || !core.IsNilConst(c.Y) || !isErrCell(c.X) {
+						continue
+					}
+					decided = true
+					failed = c.Op == token.NEQ
+				}
+				if decided && !failed {
+					return
+				}
+				published := false
+				for _, pi := range p.Instrs[:at] {
+					ci, isCall := pi.(*ssa.Call)
+					if !isCall || !ci.Call.IsInvoke() || ci.Call.Method.Name() != "Close" || len(ci.Call.Args) != 1 {
+						continue
+					}
+					if strings.HasSuffix(core.TypeName(ci.Call.Value.Type()), "WaitCloser") && isErrCell(ci.Call.Args[0]) {
+						published = true
+					}
+				}
+				if !published {
+					bad = "the unit channel is closed on a path where the parser's error may be set and has not been handed to the wait-closer: a sender that sees the closed channel ends with nil first, and the refused unit stops the replay without an error"
+				}
+			})
+			if !okEnum {
+				r.Undecided("parseAofReplayUnits/refusal-published-before-close", in.Pos(), "too many paths")
+				continue
+			}
+			r.Check(bad == "" && paths > 0, "parseAofReplayUnits/refusal-published-before-close", in.Pos(), "%s", bad)
+		}
+	}
+	if n == 0 {
+		r.Fail("parseAofReplayUnits/refusal-published-before-close", f.Pos(), "the parser does not close the unit channel: the senders would never end")
+	}
 }
